@@ -316,6 +316,9 @@ func nonZero(n *spec.Node, v any, populated bool) any {
 	if !populated {
 		return v
 	}
+	if n.Kind == spec.Bool {
+		return true // false is the zero value
+	}
 	if ref.IsZeroValidate(v) {
 		return n.Witness
 	}
